@@ -233,7 +233,11 @@ fn check_open(text: &str, blocks: &[Block], body: &M, well_typed_expected: Optio
 // the text and the mirror term of a program are made when its case runs (the list has 1.5 M entries
 // in the thorough tier, and every worker process holds it).
 fn programs(tier: Tier) -> Rc<Vec<Rc<S>>> {
-    let progs = sem::typed_programs(sem::typed_size(tier));
+    programs_upto(sem::typed_size(tier))
+}
+
+fn programs_upto(nodes: usize) -> Rc<Vec<Rc<S>>> {
+    let progs = sem::typed_programs(nodes);
     Rc::new(progs.iter().filter(|(_, s)| matches!(**s, S::Lam { .. } | S::Let { .. })).map(|(_, s)| s.clone()).collect())
 }
 
@@ -373,7 +377,8 @@ fn computed_annotation_sweep() -> Sweep {
 
 // For C12: holed patterns against instances under contexts with parameters and definitions.
 pub fn unify_under_context_sweep(tier: Tier) -> Sweep {
-    let ps = programs(tier);
+    // the first 6000 / 40000 programs are the small ones: the list one size down holds them all
+    let ps = programs_upto(sem::typed_size(tier) - 1);
     let limit = (ps.len() as u64).min(tier.pick(6000, 40_000));
     let p2 = ps.clone();
     Sweep::new(
